@@ -40,10 +40,13 @@ ASSUMPTIONS = [
     "carry a 1e-8 ridge so cond ~ 1e9 is the normal case) plus twice the spread of log det between the full / "
     "lower-triangle / upper-triangle readings of the (numerically not exactly symmetric) matrix; comparisons with "
     "cond > 1e13 are skipped and counted",
-    "residual-flux-fraction is compared only where |data - sky| > 1e-12 (|data|+|sky|) (division by ~0 is undefined; "
-    "excluded pixels are counted as tie-band exclusions)",
-    "an InversionException from the solver or from a log-determinant is accepted only when cond(F+H) or cond(H_rr) "
-    "exceeds 1e12; such cases are counted as exclusions",
+    "residual-flux-fraction is compared only where |data - sky| > 1e-12 (|data|+|sky|) and the quotient is finite "
+    "(division by ~0 is undefined; excluded pixels are counted as tie-band exclusions)",
+    "an InversionException from inversion.reconstruction (singular system, or the documented rejection of a mapper whose "
+    "values are all identical - C05's subject) ends the case (counted); one from a log-determinant term is accepted only "
+    "when cond((F+H)_rr) or cond(H_rr) exceeds 1e12",
+    "a quantity whose input quantity already failed (data flow residual -> chi-squared map -> chi-squared -> likelihood -> "
+    "evidence) is not compared again, so one root cause is reported under one key",
     "the content of masked entries of the returned native maps is not constrained (the statement is about unmasked "
     "pixels); only their shape is",
 ]
@@ -287,9 +290,12 @@ def _within(got, want, tol):
 
 
 def _cmp(ctx, got, want, tol, key, what):
-    ctx.check(_within(got, want, tol), key,
+    """Tolerance comparison; returns False when it failed under a known / already reported key."""
+    ok = _within(got, want, tol)
+    ctx.check(ok, key,
               lambda: "%s: got %s want %s (max|diff|=%s, tol max=%g)" % (
                   what, _s(got), _s(want), _maxdiff(got, want), float(np.max(tol)) if np.size(tol) else 0.0))
+    return ok
 
 
 def _s(x):
@@ -304,15 +310,28 @@ def _maxdiff(a, b):
         return "n/a"
 
 
-def observe_fit(fit, m, mode, ref, tol, ctx, prefix, maps=MAPS):
-    """Compare every map / scalar of one fit object with the oracle; returns the observed scalars."""
+# data flow of the implementation: a quantity whose input already failed is not compared again, so one root cause
+# is reported under one key
+DEPENDS = {"residual_map": (), "signal_to_noise_map": (), "normalized_residual_map": ("residual_map",),
+           "chi_squared_map": ("residual_map",), "residual_flux_fraction_map": ("residual_map",),
+           "chi_squared": ("chi_squared_map",), "reduced_chi_squared": ("chi_squared",), "noise_normalization": (),
+           "log_likelihood": ("chi_squared", "noise_normalization")}
+
+
+def observe_fit(fit, m, mode, ref, tol, ctx, maps=MAPS):
+    """Compare every map / scalar of one fit object with the oracle; returns (observed scalars, failed names)."""
     un = ~m
     n = int(un.sum())
     want_shape = m.shape if mode == "native" else (n,)
+    failed = set()
     for name in maps:
+        if any(d in failed for d in DEPENDS[name]):
+            failed.add(name)
+            continue
         arr = np.asarray(getattr(fit, name))
-        key = "%s/%s/%s" % (prefix, mode, name)
+        key = "fit/%s/%s" % (mode, name)
         if arr.shape != want_shape:
+            failed.add(name)
             ctx.fail(key + "/shape", "%s has shape %s, expected %s" % (name, arr.shape, want_shape))
             continue
         got = np.asarray(arr[un] if mode == "native" else arr, dtype=float)
@@ -322,6 +341,7 @@ def observe_fit(fit, m, mode, ref, tol, ctx, prefix, maps=MAPS):
             good = _within(got[ok], ref[name][ok], tol[name][ok])
             ctx.comparisons += 1
             if not good:
+                failed.add(name)
                 # discriminate the root cause: the chi-squared map returned under this name
                 if _within(got, ref["chi_squared_map"], tol["chi_squared_map"]):
                     ctx.fail("fit/residual_flux_fraction_map/returns-chi-squared-map",
@@ -330,13 +350,17 @@ def observe_fit(fit, m, mode, ref, tol, ctx, prefix, maps=MAPS):
                 else:
                     ctx.fail(key, "residual_flux_fraction_map: got %s want %s" % (_s(got), _s(ref[name])))
             continue
-        _cmp(ctx, got, ref[name], tol[name], key, "%s vs definition on values[~mask]" % name)
+        if not _cmp(ctx, got, ref[name], tol[name], key, "%s vs definition on values[~mask]" % name):
+            failed.add(name)
     out = {}
     for name in SCALARS:
-        v = getattr(fit, name)
-        out[name] = float(v)
-        _cmp(ctx, out[name], ref[name], tol[name], "%s/%s/%s" % (prefix, mode, name), "%s vs definition on values[~mask]" % name)
-    return out
+        out[name] = float(getattr(fit, name))
+        if any(d in failed for d in DEPENDS[name]):
+            failed.add(name)
+            continue
+        if not _cmp(ctx, out[name], ref[name], tol[name], "fit/%s/%s" % (mode, name), "%s vs definition on values[~mask]" % name):
+            failed.add(name)
+    return out, failed
 
 
 def _mask_obj(case):
@@ -355,9 +379,15 @@ def _garbage_labels(case, ctx, m):
     ctx.label("masked:none" if not m.any() else "masked:some")
 
 
-def _metamorphic(ctx, a, b, prefix):
+def _same(a, b):
+    return a == b or (math.isnan(a) and math.isnan(b))
+
+
+def _metamorphic(ctx, a, b, prefix, failed=()):
     for name in a:
-        ctx.check(a[name] == b[name] or (math.isnan(a[name]) and math.isnan(b[name])),
+        if name in failed:
+            continue
+        ctx.check(_same(a[name], b[name]),
                   "%s/native/%s/masked-garbage-changes-value" % (prefix, name),
                   lambda: "%s changes from %r to %r when only values in masked pixels change" % (name, a[name], b[name]))
 
@@ -374,20 +404,23 @@ def body_fit(case, ctx):
     ctx.nt(bool(m.any()) and _nonzero_garbage(case["g1"]))
     sky = float(case["sky"])
     ref, tol = reference(case["data"], case["noise"], case["model"], sky)
-    scal = {}
+    scal, failed = {}, set()
     for mode, g in (("slim", None), ("native", case["g1"]), ("native2", case["g2"])):
         if mode == "slim":
             fit = _slim_fit(mask, case["data"], case["noise"], case["model"], sky)
         else:
             fit = _native_fit(mask, m, case["data"], case["noise"], case["model"], sky, g)
         md = "slim" if mode == "slim" else "native"
-        out = observe_fit(fit, m, md, ref, tol, ctx, "fit")
+        out, bad = observe_fit(fit, m, md, ref, tol, ctx)
+        failed |= bad
         fom = float(fit.figure_of_merit)
         out["figure_of_merit"] = fom
-        ctx.check(fom == float(fit.log_likelihood), "fit/%s/figure_of_merit-not-log-likelihood" % md,
+        ctx.check(_same(fom, float(fit.log_likelihood)), "fit/%s/figure_of_merit-not-log-likelihood" % md,
                   "no inversion: figure_of_merit %r != log_likelihood %r" % (fom, float(fit.log_likelihood)))
         scal[mode] = out
-    _metamorphic(ctx, scal["native"], scal["native2"], "fit")
+    if "log_likelihood" in failed:
+        failed.add("figure_of_merit")
+    _metamorphic(ctx, scal["native"], scal["native2"], "fit", failed)
 
 
 # ---------------------------------------------------------------------------------------------
@@ -552,7 +585,7 @@ def body_evidence(case, ctx):
     sg_fh, ld_fh, c_fh, amb_fh = _logdet(fh_rr)
     sg_h, ld_h, c_h, amb_h = _logdet(h_rr)
     nr = len(idx)
-    ctx.label("cond(H):1e%02d" % int(min(99, max(0, round(math.log10(max(c_h, 1.0)))))) if nr else "cond(H):empty")
+    ctx.label("cond(H):%s" % ("<1e6" if c_h < 1e6 else "1e6..1e10" if c_h < 1e10 else ">=1e10") if nr else "cond(H):empty")
     skip_ld = (not np.isfinite(c_fh)) or (not np.isfinite(c_h)) or max(c_fh, c_h) > 1e13 or sg_fh <= 0 or sg_h <= 0
     tol_fh = _ld_tol(ld_fh, nr, c_fh) + 2.0 * amb_fh
     tol_h = _ld_tol(ld_h, nr, c_h) + 2.0 * amb_h
@@ -573,14 +606,14 @@ def body_evidence(case, ctx):
     if got_reg is None or got_fh is None or got_h is None:
         ctx.tie(); ctx.label("raised:InversionException")
         return
-    _cmp(ctx, got_reg, reg_ref, reg_tol, "evidence/regularization_term/%s" % rl, "s_r^T H_rr s_r over regularized parameters")
+    terms_ok = _cmp(ctx, got_reg, reg_ref, reg_tol, "evidence/regularization_term/%s" % rl, "s_r^T H_rr s_r over regularized parameters")
     if skip_ld:
         ctx.tie(); ctx.label("cond>1e13:logdet-skipped")
         return
-    _cmp(ctx, got_fh, ld_fh, tol_fh, "evidence/log_det_curvature_reg_matrix_term/%s" % rl,
-         "log det (F+H) over regularized parameters (cond %.1e)" % c_fh)
-    _cmp(ctx, got_h, ld_h, tol_h, "evidence/log_det_regularization_matrix_term/%s" % rl,
-         "log det H over regularized parameters (cond %.1e)" % c_h)
+    terms_ok &= _cmp(ctx, got_fh, ld_fh, tol_fh, "evidence/log_det_curvature_reg_matrix_term/%s" % rl,
+                     "log det (F+H) over regularized parameters (cond %.1e)" % c_fh)
+    terms_ok &= _cmp(ctx, got_h, ld_h, tol_h, "evidence/log_det_regularization_matrix_term/%s" % rl,
+                     "log det H over regularized parameters (cond %.1e)" % c_h)
 
     # the fit: data seen by the fit = case data (+ sky - sky), model = mapped reconstructed data
     sky = float(case["sky"])
@@ -591,29 +624,37 @@ def body_evidence(case, ctx):
     ev_tol = 0.5 * (tol["chi_squared"] + reg_tol + tol_fh + tol_h + tol["noise_normalization"])
     lr_ref = -0.5 * (chi2 + reg_ref + nn)
     lr_tol = 0.5 * (tol["chi_squared"] + reg_tol + tol["noise_normalization"])
-    scal = {}
+    scal, failed = {}, set()
     for mode, g in (("slim", None), ("native", case["g1"]), ("native2", case["g2"])):
         if mode == "slim":
             fit = _slim_fit(mask, data_in, case["noise"], model, sky, inversion=inv)
         else:
             fit = _native_fit(mask, m, data_in, case["noise"], model, sky, g, inversion=inv)
         md = "slim" if mode == "slim" else "native"
-        out = observe_fit(fit, m, md, ref, tol, ctx, "evidence-fit", maps=MAPS[:4])  # residual flux fraction: sub-check fit
+        out, bad = observe_fit(fit, m, md, ref, tol, ctx, maps=MAPS[:4])  # residual flux fraction: sub-check fit
+        failed |= bad
         out["log_evidence"] = float(fit.log_evidence)
         out["log_likelihood_with_regularization"] = float(fit.log_likelihood_with_regularization)
         out["figure_of_merit"] = float(fit.figure_of_merit)
-        _cmp(ctx, out["log_evidence"], ev_ref, ev_tol, "evidence/%s/log_evidence/%s" % (md, rl),
-             "-(chi2 + sHs + logdet(F+H) - logdet(H) + norm)/2 = -(%.6g + %.6g + %.6g - %.6g + %.6g)/2" % (chi2, reg_ref, ld_fh, ld_h, nn))
-        _cmp(ctx, out["log_likelihood_with_regularization"], lr_ref, lr_tol, "evidence/%s/log_likelihood_with_regularization" % md,
-             "-(chi2 + sHs + norm)/2")
-        ctx.check(out["figure_of_merit"] == out["log_evidence"], "evidence/%s/figure_of_merit-not-log-evidence" % md,
+        if terms_ok and not ({"chi_squared", "noise_normalization"} & bad):
+            # the terms are right: the composition must be too
+            if not _cmp(ctx, out["log_evidence"], ev_ref, ev_tol, "evidence/%s/log_evidence/%s" % (md, rl),
+                        "-(chi2 + sHs + logdet(F+H) - logdet(H) + norm)/2 = -(%.6g + %.6g + %.6g - %.6g + %.6g)/2" % (
+                            chi2, reg_ref, ld_fh, ld_h, nn)):
+                failed |= {"log_evidence", "figure_of_merit"}
+            if not _cmp(ctx, out["log_likelihood_with_regularization"], lr_ref, lr_tol,
+                        "evidence/%s/log_likelihood_with_regularization" % md, "-(chi2 + sHs + norm)/2"):
+                failed.add("log_likelihood_with_regularization")
+        else:
+            failed |= {"log_evidence", "log_likelihood_with_regularization", "figure_of_merit"}
+        ctx.check(_same(out["figure_of_merit"], out["log_evidence"]), "evidence/%s/figure_of_merit-not-log-evidence" % md,
                   "inversion present: figure_of_merit %r != log_evidence %r" % (out["figure_of_merit"], out["log_evidence"]))
         scal[mode] = out
-    _metamorphic(ctx, scal["native"], scal["native2"], "evidence")
+    _metamorphic(ctx, scal["native"], scal["native2"], "evidence", failed)
 
 
 SUBCHECKS = [
-    SubCheck("fit", body_fit, strategy=fit_cases(), examples={"quick": 1600, "thorough": 40000}, shards={"quick": 8, "thorough": 16}),
-    SubCheck("util", body_util, strategy=util_cases(), examples={"quick": 1600, "thorough": 40000}, shards={"quick": 8, "thorough": 16}),
-    SubCheck("evidence", body_evidence, strategy=evidence_cases(), examples={"quick": 640, "thorough": 8000}, shards={"quick": 16, "thorough": 16}),
+    SubCheck("fit", body_fit, strategy=fit_cases(), examples={"quick": 3200, "thorough": 48000}, shards={"quick": 16, "thorough": 16}),
+    SubCheck("util", body_util, strategy=util_cases(), examples={"quick": 2400, "thorough": 32000}, shards={"quick": 16, "thorough": 16}),
+    SubCheck("evidence", body_evidence, strategy=evidence_cases(), examples={"quick": 2400, "thorough": 32000}, shards={"quick": 16, "thorough": 16}),
 ]
